@@ -55,8 +55,9 @@ example : TimeRange_CheckRangeOverLap 20 10 5 12 = true ∧ TimeRange_CheckRange
 Model `SigModel/Model/Cmp.lean` (mirrors rawchecker.go filterOpOnDataType → fopOnNumber → compareNumberDte,
 segutils.go enclosureFromJsonNumber, metacheckers.go checkRangeIndexHelper, evaluationstructs.go / dtypeutils.go
 where-stage comparison — the code AFTER the C02 repairs: exact float64 `=`/`!=`, unsigned literal above MaxInt64
-against a signed record, ConvertToSameType keeping the values when a conversion fails), tied to the real code by the
-correspondence suite `cmpk`.  `rnd` is the float64 rounding (`strconv.ParseFloat`, `float64(int)`); the theorems
+against a signed record, ConvertToSameType keeping the values when a conversion fails, a string record that reads as a
+number compared as that float64 (c02-4), a back-fill record against a string / bool literal treated like the empty
+record of a block without the column (c02-1)), tied to the real code by the correspondence suite `cmpk`.  `rnd` is the float64 rounding (`strconv.ParseFloat`, `float64(int)`); the theorems
 hold for EVERY `rnd` with `RndOk rnd` (rnd 0 = 0, idempotent, fixes binary64 values); exactness of `rnd` on a
 converted integer is part of the guards and holds within ±2^53 (`Exact53`).  Counterexamples use the Oracle's
 concrete round-to-nearest-even `roundF64` and are replayed on the real code (corpus/cmpk.ops).  Definitions named
@@ -67,11 +68,12 @@ open SigModel.Cmp SigModel.Tlv SigModel.Lemmas.C02K
 
 /-- (1) FULL-strength statement: for every stored value `v` of the writer's kinds, every operator and every number
 text `t`, the search-clause comparison on the record bytes answers without error exactly the comparison BY VALUE
-(`specCmp`: integers and float64 records denote their exact values, an integer literal its integer, any other
-literal the float64 it parses to; a value that is not a number satisfies only `!=`). -/
+(`specCmp`: integers and float64 records denote their exact values, a string in number syntax the float64 it
+reads as, an integer literal its integer, any other literal the float64 it parses to; a value that is not a
+number satisfies only `!=`). -/
 def ImplEqSpec (rnd : Rat → Rat) : Prop :=
   ∀ (ci : Bool) (v : SVal) (op : Cmp.Op) (t : NumText), v.wf → t.wf →
-    implCmp rnd ci v.enc op (mkLit rnd t) = .ok (specCmp v op (mkLit rnd t))
+    implCmp rnd ci v.enc op (mkLit rnd t) = .ok (specCmp rnd v op (mkLit rnd t))
 
 /-- REFUTED, class B: the stored int64 2^53+1 is not `>` the literal 9007199254740992.0 in the code
 (`float64(record)` drops the low bit). -/
@@ -95,23 +97,25 @@ theorem implCmp_eq_spec_counterexample_uint_vs_negative : ¬ ImplEqSpec roundF64
   have := h false (.uint 0) .lt ⟨true, none, some (-1000), -1000⟩ (by decide) (by decide)
   revert this; decide +kernel
 
-/-- REFUTED, class F: the stored string "2" is not `=` the literal 2 in the code (numeric strings are not numbers
-for `fopOnNumber`). -/
-theorem implCmp_eq_spec_counterexample_numeric_string : ¬ ImplEqSpec roundF64 := by
+/-- class C on a numeric STRING (the record is the float64 the text reads as, since repair c02-4): the stored text
+"9223372036854775808" `=` the integer literal 9223372036854775807 in the code. -/
+theorem implCmp_eq_spec_counterexample_numeric_string_lit_beyond_2_53 : ¬ ImplEqSpec roundF64 := by
   intro h
-  have := h false (.str [50]) .eq ⟨false, some 2, some 2, 2⟩ (by decide) (by decide)
+  have := h false (.str [57, 50, 50, 51, 51, 55, 50, 48, 51, 54, 56, 53, 52, 55, 55, 53, 56, 48, 56]) .eq
+    ⟨false, some 9223372036854775807, some 9223372036854775807, 9223372036854775807⟩ (by decide) (by decide)
   revert this; decide +kernel
 
-/-- the decidable guard that excludes exactly the classes B, C, D, F (`cmpGuardQ`, SigModel/Lemmas/C02Kb.lean):
-integers that float64 does not represent exactly when a float comparison is made, an unsigned record against a
-negative integer literal, numeric strings -/
+/-- the decidable guard that excludes exactly the classes B, C, D (`cmpGuardQ`, SigModel/Lemmas/C02Kb.lean):
+integers that float64 does not represent exactly when a float comparison is made (the record for a float-typed
+literal; an integer literal for a float64 record or a numeric string), an unsigned record against a negative
+integer literal -/
 def CmpGuard (rnd : Rat → Rat) (v : SVal) (op : Cmp.Op) (t : NumText) : Bool := cmpGuardQ rnd v op (mkLit rnd t)
 
 /-- (1) PROVED under the guard, for every rounding function with `RndOk`, every stored value, operator, literal
 text and case-sensitivity flag: the search-clause comparison is the comparison by value. -/
 theorem implCmp_eq_spec_partial (rnd : Rat → Rat) (hr : RndOk rnd) (ci : Bool) (v : SVal) (op : Cmp.Op) (t : NumText)
     (hv : v.wf) (ht : t.wf) (hg : CmpGuard rnd v op t = true) :
-    implCmp rnd ci v.enc op (mkLit rnd t) = .ok (specCmp v op (mkLit rnd t)) :=
+    implCmp rnd ci v.enc op (mkLit rnd t) = .ok (specCmp rnd v op (mkLit rnd t)) :=
   impl_eq_spec_q rnd hr ci v hv op _ (mkLit_ok rnd hr t ht) hg
 
 /-- the case repaired by /repo ec0bd3f, at full generality: an integer record that float64 represents exactly
@@ -119,7 +123,7 @@ theorem implCmp_eq_spec_partial (rnd : Rat → Rat) (hr : RndOk rnd) (ci : Bool)
 value. -/
 theorem int_vs_decimal_by_value (rnd : Rat → Rat) (hr : RndOk rnd) (ci : Bool) (i : Int) (op : Cmp.Op) (t : NumText)
     (hv : (SVal.int i).wf) (ht : t.wf) (hex : rnd (i : Rat) = (i : Rat)) (hf : (mkLit rnd t).dtype = .float) :
-    implCmp rnd ci (SVal.int i).enc op (mkLit rnd t) = .ok (specCmp (.int i) op (mkLit rnd t)) := by
+    implCmp rnd ci (SVal.int i).enc op (mkLit rnd t) = .ok (specCmp rnd (.int i) op (mkLit rnd t)) := by
   apply implCmp_eq_spec_partial rnd hr ci _ op t hv ht
   simp [CmpGuard, cmpGuardQ, hf, hex]
 
@@ -127,7 +131,7 @@ theorem int_vs_decimal_by_value (rnd : Rat → Rat) (hr : RndOk rnd) (ci : Bool)
 value — no guard (the [2^63, 2^64) part is the C02 repair of the wrapped SignedVal). -/
 theorem int_vs_int_literal_by_value (rnd : Rat → Rat) (hr : RndOk rnd) (ci : Bool) (i : Int) (op : Cmp.Op) (t : NumText)
     (hv : (SVal.int i).wf) (ht : t.wf) (hf : (mkLit rnd t).dtype ≠ .float) :
-    implCmp rnd ci (SVal.int i).enc op (mkLit rnd t) = .ok (specCmp (.int i) op (mkLit rnd t)) := by
+    implCmp rnd ci (SVal.int i).enc op (mkLit rnd t) = .ok (specCmp rnd (.int i) op (mkLit rnd t)) := by
   apply implCmp_eq_spec_partial rnd hr ci _ op t hv ht
   cases hd : (mkLit rnd t).dtype <;> simp_all [CmpGuard, cmpGuardQ]
 
@@ -135,9 +139,28 @@ theorem int_vs_int_literal_by_value (rnd : Rat → Rat) (hr : RndOk rnd) (ci : B
 C02 repair of the AlmostEquals tolerance). -/
 theorem float_vs_decimal_by_value (rnd : Rat → Rat) (hr : RndOk rnd) (ci : Bool) (b : Nat) (op : Cmp.Op) (t : NumText)
     (hv : (SVal.float b).wf) (ht : t.wf) (hf : (mkLit rnd t).dtype = .float) :
-    implCmp rnd ci (SVal.float b).enc op (mkLit rnd t) = .ok (specCmp (.float b) op (mkLit rnd t)) := by
+    implCmp rnd ci (SVal.float b).enc op (mkLit rnd t) = .ok (specCmp rnd (.float b) op (mkLit rnd t)) := by
   apply implCmp_eq_spec_partial rnd hr ci _ op t hv ht
   simp [CmpGuard, cmpGuardQ, hf]
+
+/-- repair c02-4, at full generality: a stored STRING — numeric text of any spelling the engine reads as a number,
+or any other text — against ANY float-typed literal, and against every integer literal that float64 represents
+exactly (every |n| ≤ 2^53), under all six operators: a numeric text is compared by the value it reads as, any other
+text satisfies only `!=`. -/
+theorem string_vs_number_by_value (rnd : Rat → Rat) (hr : RndOk rnd) (ci : Bool) (s : Bytes) (op : Cmp.Op) (t : NumText)
+    (hv : (SVal.str s).wf) (ht : t.wf)
+    (hex : (mkLit rnd t).dtype = .float ∨ rnd t.val = t.val) :
+    implCmp rnd ci (SVal.str s).enc op (mkLit rnd t) = .ok (specCmp rnd (.str s) op (mkLit rnd t)) := by
+  apply implCmp_eq_spec_partial rnd hr ci _ op t hv ht
+  simp only [CmpGuard, cmpGuardQ]
+  cases hn : numOfStr? s with
+  | none => rfl
+  | some a =>
+    cases hd : (mkLit rnd t).dtype <;> simp [hd] at hex ⊢
+    · rw [← mkLit_signed_val rnd t ht hd]; exact hex
+    · rcases mkLit_unsigned_val rnd t ht hd with h0 | hval
+      · rw [h0]; simpa using hr.zero
+      · rw [← hval]; exact hex
 
 /-- the assumptions on `rnd` are consistent, and the closed one holds for the Oracle's rounding -/
 example : RndOk (fun x => x) := ⟨rfl, fun _ => rfl, fun _ _ => rfl⟩
@@ -160,7 +183,7 @@ example : implCmp roundF64 false (SVal.float 0x400000053e2d6239).enc .eq (mkLit 
 /-- the search clause BEFORE the C02 repairs (tolerance-based float equality, wrapped literal in the signed branch) -/
 def ImplEqSpecOld (rnd : Rat → Rat) : Prop :=
   ∀ (v : SVal) (op : Cmp.Op) (t : NumText), v.wf → t.wf →
-    fopOnNumberOld rnd v.enc (mkLit rnd t) op = .ok (specCmp v op (mkLit rnd t))
+    fopOnNumberOld rnd v.enc (mkLit rnd t) op = .ok (specCmp rnd v op (mkLit rnd t))
 
 /-- for the record, class A (REPAIRED): the stored float64 2.00001 `=` literal 2 was true (AlmostEquals, 1e-4). -/
 theorem implCmpOld_eq_spec_counterexample_tolerance : ¬ ImplEqSpecOld roundF64 := by
@@ -175,11 +198,60 @@ theorem implCmpOld_eq_spec_counterexample_lit_beyond_int64 : ¬ ImplEqSpecOld ro
   have := h (.int 5) .lt ⟨false, some 9223372036854775808, none, 9223372036854775808⟩ (by decide) (by decide)
   revert this; decide +kernel
 
+/-- the search clause BEFORE repair c02-4 only (a string record is never a number) -/
+def ImplEqSpecStrOld (rnd : Rat → Rat) : Prop :=
+  ∀ (v : SVal) (op : Cmp.Op) (t : NumText), v.wf → t.wf →
+    fopOnNumberStrOld rnd v.enc (mkLit rnd t) op = .ok (specCmp rnd v op (mkLit rnd t))
+
+/-- for the record, class F (REPAIRED by c02-4): the stored string "2" was not `=` the literal 2 (numeric strings
+were "not a number" for `fopOnNumber`: only `!=` held), while `| where` and the statistics read it as 2. -/
+theorem implCmpStrOld_eq_spec_counterexample_numeric_string : ¬ ImplEqSpecStrOld roundF64 := by
+  intro h
+  have := h (.str [50]) .eq ⟨false, some 2, some 2, 2⟩ (by decide) (by decide)
+  revert this; decide +kernel
+
+/-- regression witnesses of repair c02-4 on the fixed model: "2" = 2, "2.5" > 2, "1.0" = 1, "1e3" = 1000, "+5" = 5,
+"abc" satisfies only `!=` -/
+example : implCmp roundF64 false (SVal.str [50]).enc .eq (mkLit roundF64 ⟨false, some 2, some 2, 2⟩) = .ok true ∧
+    implCmp roundF64 false (SVal.str [50, 46, 53]).enc .gt (mkLit roundF64 ⟨false, some 2, some 2, 2⟩) = .ok true ∧
+    implCmp roundF64 false (SVal.str [49, 46, 48]).enc .eq (mkLit roundF64 ⟨false, some 1, some 1, 1⟩) = .ok true ∧
+    implCmp roundF64 false (SVal.str [49, 101, 51]).enc .eq (mkLit roundF64 ⟨false, some 1000, some 1000, 1000⟩) = .ok true ∧
+    implCmp roundF64 false (SVal.str [43, 53]).enc .ne (mkLit roundF64 ⟨false, some 5, some 5, 5⟩) = .ok false ∧
+    implCmp roundF64 false (SVal.str [97, 98, 99]).enc .ne (mkLit roundF64 ⟨false, some 5, some 5, 5⟩) = .ok true ∧
+    implCmp roundF64 false (SVal.str [97, 98, 99]).enc .eq (mkLit roundF64 ⟨false, some 5, some 5, 5⟩) = .ok false := by
+  decide +kernel
+
+/-- repair c02-1: against a string or boolean literal a BACK-FILL record (the event does not have the column, the
+block does) answers exactly like the empty record of a block that does not have the column at all — `=` no,
+`!=` yes — so whether an event lacking the field satisfies `!=` no longer depends on what else its block holds. -/
+theorem backfill_record_like_absent_column (rnd : Rat → Rat) (ci : Bool) (op : Cmp.Op) (q : Cmp.Lit)
+    (hq : q.dtype = .str ∨ q.dtype = .bool) :
+    implCmp rnd ci SVal.backfill.enc op q = implCmp rnd ci [] op q := by
+  rcases hq with h | h <;> simp [implCmp, h, SVal.enc, SVal.toTlv, encTLV]
+
+/-- … and for a numeric literal both satisfy exactly `!=` (unchanged code) -/
+theorem backfill_record_like_absent_column_num (rnd : Rat → Rat) (ci : Bool) (op : Cmp.Op) (q : Cmp.Lit)
+    (hq : q.dtype = .signed ∨ q.dtype = .unsigned ∨ q.dtype = .float) :
+    implCmp rnd ci SVal.backfill.enc op q = .ok (op == .ne) ∧ implCmp rnd ci [] op q = .ok (op == .ne) := by
+  have h0 : getNumberRecDte [] = .ok none := rfl
+  have h1 : strRecNum? rnd [] = none := rfl
+  rcases hq with h | h | h <;>
+    simp only [implCmp, h, fopOnNumber, getNum_backfill, strRecNum_backfill, h0, h1, and_self]
+
+/-- for the record (REPAIRED by c02-1): the back-fill record did not satisfy `g != "red"` although the empty
+record did. -/
+theorem backfill_record_like_absent_column_old_counterexample :
+    ¬ (∀ (ci : Bool) (op : Cmp.Op) (q : Cmp.Lit), q.dtype = .str →
+        implCmpBackfillOld ci SVal.backfill.enc op q = implCmpBackfillOld ci [] op q) := by
+  intro h
+  have := h false .ne (strLit [114, 101, 100]) rfl
+  revert this; decide
+
 /-- (2) FULL-strength statement: the block range-index check never skips a block whose range holds a value that
 satisfies the comparison by value. -/
 def RangeSound (rnd : Rat → Rat) : Prop :=
   ∀ (ri : Range) (v : SVal) (op : Cmp.Op) (t : NumText), v.wf → t.wf → ri.contains rnd v →
-    specCmp v op (mkLit rnd t) = true → rangeCheck rnd ri op t = true
+    specCmp rnd v op (mkLit rnd t) = true → rangeCheck rnd ri op t = true
 
 /-- REFUTED (float fallback of an integer range, bounds beyond 2^53): a block holding only the int64 2^53+1 is
 skipped for `> 9007199254740992.0`. -/
@@ -203,7 +275,7 @@ range is represented exactly): for every range of every type that contains the s
 literal text, if the value satisfies the comparison by value the check does not skip — with the float fallback of
 ec0bd3f as coded, on the REGENERATED does*PassRangeFilter kernels. -/
 theorem range_check_sound_partial (rnd : Rat → Rat) (ri : Range) (v : SVal) (op : Cmp.Op) (t : NumText) (ht : t.wf)
-    (hc : ri.contains rnd v) (hs : specCmp v op (mkLit rnd t) = true) (hg : rangeGuard rnd ri v t = true) :
+    (hc : ri.contains rnd v) (hs : specCmp rnd v op (mkLit rnd t) = true) (hg : rangeGuard rnd ri v t = true) :
     rangeCheck rnd ri op t = true :=
   range_sound rnd ri v op t ht hc hs hg
 
@@ -231,14 +303,14 @@ field both stages compute the comparison by value, hence agree. -/
 theorem search_where_agree_partial (rnd : Rat → Rat) (hr : RndOk rnd) (ci : Bool) (v : SVal) (op : Cmp.Op) (t : NumText)
     (b : Bool) (hv : v.wf) (ht : t.wf) (hg : CmpGuard rnd v op t = true) (hw : whereGuard rnd v op t = true)
     (h : whereCmp rnd v op t = some b) :
-    implCmp rnd ci v.enc op (mkLit rnd t) = .ok b ∧ b = specCmp v op (mkLit rnd t) := by
+    implCmp rnd ci v.enc op (mkLit rnd t) = .ok b ∧ b = specCmp rnd v op (mkLit rnd t) := by
   have h1 := implCmp_eq_spec_partial rnd hr ci v op t hv ht hg
   cases hf : fieldFloat rnd v with
   | none => simp [whereCmp, whereCmpWith, hf] at h
   | some a =>
     have h2 := where_eq_spec rnd hr v hv op t ht a hf hw
     rw [h2] at h
-    have hb : specCmp v op (mkLit rnd t) = b := by simpa using h
+    have hb : specCmp rnd v op (mkLit rnd t) = b := by simpa using h
     rw [h1, hb]; exact ⟨rfl, rfl⟩
 
 /-- (3) WHAT REMAINS, stated without guards: whenever every integer involved — the stored integer and the literal's
@@ -249,7 +321,7 @@ a negative integer (latent class D). -/
 theorem search_where_agree_within_2_53 (rnd : Rat → Rat) (hr : RndOk rnd) (hex : Exact53 rnd) (ci : Bool) (v : SVal)
     (op : Cmp.Op) (t : NumText) (b : Bool) (hv : v.wf) (ht : t.wf) (hin : Within53 v t)
     (hD : ∀ n, v = .uint n → (mkLit rnd t).dtype ≠ .signed) (h : whereCmp rnd v op t = some b) :
-    implCmp rnd ci v.enc op (mkLit rnd t) = .ok b ∧ b = specCmp v op (mkLit rnd t) := by
+    implCmp rnd ci v.enc op (mkLit rnd t) = .ok b ∧ b = specCmp rnd v op (mkLit rnd t) := by
   have hnum : (fieldFloat rnd v).isSome = true := by
     cases hf : fieldFloat rnd v with
     | none => simp [whereCmp, whereCmpWith, hf] at h
@@ -296,9 +368,10 @@ theorem string_eq_ne (rnd : Rat → Rat) (ci : Bool) (s p : Bytes) (hs : s.lengt
   have hd : List.drop 3 (tStr :: (leN 2 s.length ++ s)) = s := by
     have : (tStr :: (leN 2 s.length ++ s)) = (tStr :: leN 2 s.length) ++ s := by simp
     rw [this, List.drop_left' (by simp [h3])]
+  have hb : ¬ (tStr = tBackfill) := by decide
   constructor
   · simp only [implCmp, strLit, SVal.enc, SVal.toTlv, encTLV, hl, List.take_length, fopOnString]
-    simp [h3, hd]
+    simp [h3, hd, hb]
     have h0 : ¬ (2 + s.length + 1 < 3) := by omega
     simp only [h0, if_false]
     by_cases hne : s.length = p.length
@@ -308,7 +381,7 @@ theorem string_eq_ne (rnd : Rat → Rat) (ci : Bool) (s p : Bytes) (hs : s.lengt
       · intro he; rw [he] at hne; exact hne rfl
       · exact ciEqual_length_ne s p hne
   · simp only [implCmp, strLit, SVal.enc, SVal.toTlv, encTLV, hl, List.take_length, fopOnString]
-    simp [h3, hd]
+    simp [h3, hd, hb]
 
 end Kernel
 
